@@ -1,5 +1,7 @@
 // C01 correspondence harness: drives the real verification chain
-//   estargz.Build -> (corruption) -> metadata/memory.NewReader -> fs/reader.NewReader (+ fs/layer layer object)
+//
+//	estargz.Build -> (corruption) -> metadata/memory.NewReader -> fs/reader.NewReader (+ fs/layer layer object)
+//
 // with random histories of VerifyTOC / SkipVerify / layer Verify / SkipVerify / prefetch (readAndCache, Cache) /
 // OpenFile.ReadAt, records what the metadata store delivered for every chunk fetch (the adversary's bytes),
 // prints history + observed outputs as Coq terms for Model/Verify.v, and evaluates the property's clauses
@@ -14,9 +16,11 @@ import (
 	"encoding/json"
 	"fmt"
 	"io"
+	"os"
 	"runtime"
 	"sort"
 	"strings"
+	"sync"
 
 	"github.com/containerd/containerd/v2/pkg/reference"
 	"github.com/containerd/stargz-snapshotter/cache"
@@ -65,6 +69,7 @@ type Case struct {
 	Comp      string     `json:"comp"` // gzip | zstd
 	ChunkSize int        `json:"chunk_size"`
 	MinChunk  int        `json:"min_chunk"`
+	DirCache  bool       `json:"dir_cache,omitempty"` // directory chunk cache (2-entry memory LRU, SyncAdd) instead of the memory cache
 	Files     []FileSpec `json:"files"`
 	Cors      []Cor      `json:"cors"`
 	Ops       []Op       `json:"ops"`
@@ -261,11 +266,16 @@ func altPayload(orig []byte, alt int) []byte {
 func applyCors(c Case, blob []byte, tabs [][]chunkInfo) ([]byte, []bool) {
 	out := append([]byte{}, blob...)
 	applied := make([]bool, len(c.Cors))
+	tocOff, _, err := estargz.OpenFooter(io.NewSectionReader(bytes.NewReader(blob), 0, int64(len(blob))))
+	if err != nil || tocOff <= 0 {
+		tocOff = int64(len(blob))
+	}
 	pick := func(f, i int) (chunkInfo, bool) {
 		if f < 0 || f >= len(tabs) || i < 0 || i >= len(tabs[f]) {
 			return chunkInfo{}, false
 		}
 		ci := tabs[f][i]
+		ci.CNext = min(ci.CNext, tocOff) // payload members only; the TOC is altered by the toc* kinds
 		if ci.COff <= 0 || ci.CNext <= ci.COff || ci.CNext > int64(len(blob)) {
 			return chunkInfo{}, false
 		}
@@ -305,6 +315,24 @@ func applyCors(c Case, blob []byte, tabs [][]chunkInfo) ([]byte, []bool) {
 		case "swap":
 			a, ok1 := pick(co.F, co.I)
 			b, ok2 := pick(co.F2, co.I2)
+			if !(ok1 && ok2 && a.COff != b.COff && a.CNext-a.COff == b.CNext-b.COff) {
+				// the chosen pair cannot be swapped in place: take the first pair of members of equal length
+				ok1 = false
+				for f1 := range tabs {
+					for i1 := range tabs[f1] {
+						for f2 := range tabs {
+							for i2 := range tabs[f2] {
+								x, okx := pick(f1, i1)
+								y, oky := pick(f2, i2)
+								if !ok1 && okx && oky && x.COff < y.COff && x.CNext-x.COff == y.CNext-y.COff &&
+									!bytes.Equal(blob[x.COff:x.CNext], blob[y.COff:y.CNext]) {
+									a, b, ok1, ok2 = x, y, true, true
+								}
+							}
+						}
+					}
+				}
+			}
 			if ok1 && ok2 && a.COff != b.COff && a.CNext-a.COff == b.CNext-b.COff {
 				tmp := append([]byte{}, out[a.COff:a.CNext]...)
 				copy(out[a.COff:a.CNext], out[b.COff:b.CNext])
@@ -477,6 +505,74 @@ func (r *recReader) Clone(sr *io.SectionReader) (metadata.Reader, error) {
 }
 
 // ---------------------------------------------------------------------------------------------
+// gated chunk cache: lets the harness stop one prefetch goroutine either just before cache.Add (= before the
+// RLock section of readAndCache) or just before Commit (= after it), run other calls, and resume it.
+
+type gate struct {
+	at      string // "add" | "commit"
+	reached chan struct{}
+	release chan struct{}
+}
+
+type gateCache struct {
+	cache.BlobCache
+	mu    sync.Mutex
+	gates map[string]*gate // one-shot, by cache key
+}
+
+func (g *gateCache) arm(key, at string) *gate {
+	gt := &gate{at: at, reached: make(chan struct{}), release: make(chan struct{})}
+	g.mu.Lock()
+	g.gates[key] = gt
+	g.mu.Unlock()
+	return gt
+}
+
+func (g *gateCache) disarm(key string) {
+	g.mu.Lock()
+	delete(g.gates, key)
+	g.mu.Unlock()
+}
+
+func (g *gateCache) Add(key string, opts ...cache.Option) (cache.Writer, error) {
+	g.mu.Lock()
+	gt := g.gates[key]
+	delete(g.gates, key)
+	g.mu.Unlock()
+	if gt != nil && gt.at == "add" {
+		close(gt.reached)
+		<-gt.release
+		gt = nil
+	}
+	w, err := g.BlobCache.Add(key, opts...)
+	if err != nil || gt == nil {
+		return w, err
+	}
+	return &gateWriter{w, gt}, nil
+}
+
+type gateWriter struct {
+	cache.Writer
+	gt *gate
+}
+
+func (w *gateWriter) Commit() error {
+	close(w.gt.reached)
+	<-w.gt.release
+	return w.Writer.Commit()
+}
+
+// one prefetch goroutine stopped at a gate
+type inflight struct {
+	f, i   int
+	gt     *gate
+	done   chan error
+	data   []byte // bytes it fetched
+	atAdd  bool
+	pendID int
+}
+
+// ---------------------------------------------------------------------------------------------
 // a remote.Blob over the in-memory blob (layer level)
 
 type memBlob struct{ b []byte }
@@ -525,7 +621,11 @@ type world struct {
 	digIDs   map[string]int
 	rec      *recorder
 	mr       metadata.Reader
-	mc       *cache.MemoryCache
+	mc       *cache.MemoryCache // nil with the directory cache
+	bc       cache.BlobCache
+	gc       *gateCache
+	flights  []*inflight // prefetch goroutines stopped at a gate, in start order
+	pend     []*inflight // those whose verification step is done and whose Commit is outstanding (model: s_pend)
 	vr       *reader.VerifiableReader
 	l        layer.Layer
 	rd       reader.Reader
@@ -638,12 +738,40 @@ func (w *world) cacheKey(f, i int) string {
 	return reader.VerifGenIDC01(w.files[f], ci.Off, ci.Size)
 }
 
-func (w *world) cachedBytes(f, i int) ([]byte, bool) {
-	b, ok := w.mc.Membuf[w.cacheKey(f, i)]
-	if !ok {
+func (w *world) cachedKey(key string) ([]byte, bool) {
+	if w.mc != nil {
+		b, ok := w.mc.Membuf[key]
+		if !ok {
+			return nil, false
+		}
+		return append([]byte{}, b.Bytes()...), true
+	}
+	r, err := w.bc.Get(key)
+	if err != nil {
 		return nil, false
 	}
-	return append([]byte{}, b.Bytes()...), true
+	defer r.Close()
+	b, err := io.ReadAll(io.NewSectionReader(r, 0, 1<<20))
+	if err != nil {
+		return nil, false
+	}
+	return b, true
+}
+
+func (w *world) cachedBytes(f, i int) ([]byte, bool) { return w.cachedKey(w.cacheKey(f, i)) }
+
+// cachedKeys: which chunk keys are in the cache now.
+func (w *world) cachedKeys() map[string]bool {
+	m := map[string]bool{}
+	for f := range w.tabs {
+		for i := range w.tabs[f] {
+			k := w.cacheKey(f, i)
+			if _, ok := w.cachedKey(k); ok {
+				m[k] = true
+			}
+		}
+	}
+	return m
 }
 
 func chunkGood(ci chunkInfo, b []byte) bool {
@@ -679,6 +807,37 @@ func (w *world) digestFor(sel string) digest.Digest {
 		return digest.FromString("some other table of contents")
 	}
 	return w.dActual
+}
+
+// resume lets the n-th in-flight prefetch run to completion and reports the sub-steps it performed.
+func (w *world) resume(n int, emit func(string, Out)) {
+	fl := w.flights[n]
+	w.flights = append(w.flights[:n], w.flights[n+1:]...)
+	close(fl.gt.release)
+	err := <-fl.done
+	w.stats["op.pfresume"]++
+	if fl.atAdd {
+		// verification step now, then (if it passed) the commit
+		if err != nil {
+			w.stats["result.pfresume.aborted"]++
+			emit(fmt.Sprintf("HAtom (PfCheck false %d%%N %d%%nat %s)", w.files[fl.f], fl.i, coqBytes(fl.data)), Out{Kind: "o", Res: "err"})
+			return
+		}
+		emit(fmt.Sprintf("HAtom (PfCheck false %d%%N %d%%nat %s)", w.files[fl.f], fl.i, coqBytes(fl.data)), Out{Kind: "o", Res: "ok"})
+		emit(fmt.Sprintf("HAtom (Commit %d%%nat)", len(w.pend)), Out{Kind: "o", Res: "none"})
+		return
+	}
+	idx := 0
+	for j, p := range w.pend {
+		if p == fl {
+			idx = j
+		}
+	}
+	w.pend = append(w.pend[:idx], w.pend[idx+1:]...)
+	if err != nil {
+		w.problems = append(w.problems, problem{"", "Commit of a prefetched chunk failed"})
+	}
+	emit(fmt.Sprintf("HAtom (Commit %d%%nat)", idx), Out{Kind: "o", Res: "none"})
 }
 
 // prefetchOne does what cacheWithReader does for one chunk, through the real readAndCache.
@@ -760,7 +919,7 @@ func run(c Case) (res result) {
 		if applied[n] {
 			res.stats["cor."+co.Kind]++
 		} else {
-			res.stats["cor.notapplied"]++
+			res.stats["cor.notapplied."+co.Kind]++
 		}
 	}
 	if len(c.Cors) == 0 {
@@ -836,14 +995,45 @@ func run(c Case) (res result) {
 			w.tabs = append(w.tabs, tab)
 		}
 	}
+	// chunk tables that are not contiguous from 0 with positive sizes (a bit flip that hit the TOC and still parsed)
+	// are the business of C04 (hostile TOCs); the model's chunk lookup is only claimed for well-formed tables.
+	for _, tab := range w.tabs {
+		var next int64
+		for _, ci := range tab {
+			if ci.Off != next || ci.Size <= 0 || ci.Size > 1<<16 {
+				res.stats["toc.malformed"]++
+				res.opened = false
+				return
+			}
+			next = ci.Off + ci.Size
+		}
+	}
 	tocID := w.digID(w.dActual.String())
 	w.digID(w.dOrig.String())
 	w.digID(w.digestFor("bad").String())
 
 	w.mr = &recReader{mr, w.rec}
-	mcache := cache.NewMemoryCache()
-	w.mc = mcache.(*cache.MemoryCache)
-	w.vr, err = reader.NewReader(w.mr, mcache, digest.FromString("layer"))
+	var mcache cache.BlobCache
+	if c.DirCache {
+		dir, err := os.MkdirTemp("", "c01cache")
+		if err != nil {
+			panic(err)
+		}
+		defer os.RemoveAll(dir)
+		mcache, err = cache.NewDirectoryCache(dir, cache.DirectoryCacheConfig{MaxLRUCacheEntry: 2, MaxCacheFds: 2, SyncAdd: true})
+		if err != nil {
+			panic(err)
+		}
+		defer mcache.Close()
+		res.stats["cache.dir"]++
+	} else {
+		mcache = cache.NewMemoryCache()
+		w.mc = mcache.(*cache.MemoryCache)
+		res.stats["cache.mem"]++
+	}
+	w.bc = mcache
+	w.gc = &gateCache{BlobCache: mcache, gates: map[string]*gate{}}
+	w.vr, err = reader.NewReader(w.mr, w.gc, digest.FromString("layer"))
 	if err != nil {
 		res.opened = false
 		return
@@ -929,7 +1119,7 @@ func run(c Case) (res result) {
 			// the real Cache() is used when its outcome does not depend on goroutine scheduling: no chunk read error,
 			// and (before the verification decision) or (no chunk fails verification). Otherwise the same chunks are
 			// driven one by one through the real readAndCache in walk order.
-			det := true
+			det := len(w.flights) == 0
 			for f := range w.tabs {
 				for i := range w.tabs[f] {
 					_, rok, good := w.chunkTruth(f, i)
@@ -995,10 +1185,7 @@ func run(c Case) (res result) {
 				continue
 			}
 			verifiedMode := w.verifiedWith != ""
-			before := map[string]bool{}
-			for k := range w.mc.Membuf {
-				before[k] = true
-			}
+			before := w.cachedKeys()
 			w.rec.take()
 			p := make([]byte, o.Len)
 			var n int
@@ -1041,7 +1228,7 @@ func run(c Case) (res result) {
 			if !verifiedMode {
 				w.skipRead = true
 				w.stats["op.read.unverified"]++
-				for k := range w.mc.Membuf {
+				for k := range w.cachedKeys() {
 					if !before[k] {
 						w.skipCached[k] = true
 					}
@@ -1083,6 +1270,72 @@ func run(c Case) (res result) {
 			}
 			emit(fmt.Sprintf("HRead %d%%N %s %s %s", w.files[o.F], hx.CoqZ(o.Off), hx.CoqZ(o.Len), hx.CoqList(fts)), out)
 			w.scanCache("after read")
+		case "pfstart":
+			// start one readAndCache in its own goroutine and stop it before ("add") or after ("commit") its
+			// verification step; other calls (VerifyTOC!) then run while it is in flight
+			if !validChunk(o.F, o.I) || c.MinChunk != 0 || len(w.flights) >= 2 {
+				continue
+			}
+			busy := false
+			for _, fl := range w.flights {
+				if fl.f == o.F && fl.i == o.I {
+					busy = true
+				}
+			}
+			if busy {
+				continue
+			}
+			at := "commit"
+			if o.D == "add" {
+				at = "add"
+			}
+			key := w.cacheKey(o.F, o.I)
+			gt := w.gc.arm(key, at)
+			fl := &inflight{f: o.F, i: o.I, gt: gt, done: make(chan error, 1), atAdd: at == "add"}
+			w.rec.take()
+			go func() { fl.done <- w.prefetchOne(fl.f, fl.i) }()
+			select {
+			case err := <-fl.done:
+				// finished without reaching the gate: cache hit, chunk read error, or aborted by the verification step
+				w.gc.disarm(key)
+				fs := w.rec.take()
+				if at == "commit" && len(fs) > 0 && !fs[0].Err && fs[0].N == fs[0].Want && err != nil {
+					// the bytes were there: the verification step itself refused (decision already taken)
+					w.note(fs[0].IP)
+					w.stats["op.pfstart.aborted"]++
+					emit(fmt.Sprintf("HAtom (PfCheck false %d%%N %d%%nat %s)", w.files[o.F], o.I, coqBytes(fs[0].IP)), Out{Kind: "o", Res: "err"})
+				} else {
+					ft := "None"
+					if len(fs) > 0 {
+						ft = "(Some " + w.coqFetch(fs[0]) + ")"
+					}
+					emit(fmt.Sprintf("HPrefetch %d%%N %d%%nat %s", w.files[o.F], o.I, ft), Out{Kind: "o", Res: errRes(err)})
+				}
+			case <-gt.reached:
+				fs := w.rec.take()
+				if len(fs) != 1 {
+					w.stats["pfstart.oddfetch"]++
+				}
+				if len(fs) > 0 {
+					fl.data = fs[0].IP
+					w.note(fl.data)
+				}
+				w.flights = append(w.flights, fl)
+				if at == "commit" {
+					// its verification step has run and let it pass
+					w.stats["op.pfstart.commit"]++
+					w.pend = append(w.pend, fl)
+					emit(fmt.Sprintf("HAtom (PfCheck false %d%%N %d%%nat %s)", w.files[o.F], o.I, coqBytes(fl.data)), Out{Kind: "o", Res: "ok"})
+				} else {
+					w.stats["op.pfstart.add"]++
+				}
+			}
+		case "pfresume":
+			if len(w.flights) == 0 {
+				continue
+			}
+			w.resume(o.I%len(w.flights), emit)
+			w.scanCache("after resumed prefetch")
 		case "probe":
 			if !validChunk(o.F, o.I) {
 				continue
@@ -1096,6 +1349,11 @@ func run(c Case) (res result) {
 			emit(fmt.Sprintf("HProbe %d%%N %d%%nat", w.files[o.F], o.I), out)
 		}
 	}
+
+	for len(w.flights) > 0 {
+		w.resume(0, emit)
+	}
+	w.scanCache("at the end")
 
 	// Coq term of the case
 	tocItems := []string{}
@@ -1135,7 +1393,6 @@ func run(c Case) (res result) {
 	return
 }
 
-
 // ---------------------------------------------------------------------------------------------
 // generation
 
@@ -1161,6 +1418,7 @@ func gen(r *hx.Rng) Case {
 	if r.Chance(1, 4) {
 		c.Comp = "zstd"
 	}
+	c.DirCache = r.Chance(1, 4)
 	c.ChunkSize = []int{4, 7, 8, 16, 16, 32}[r.Intn(6)]
 	if r.Chance(1, 5) {
 		c.MinChunk = []int{20, 40, 100}[r.Intn(3)]
@@ -1193,7 +1451,11 @@ func gen(r *hx.Rng) Case {
 		c.Cors = append(c.Cors, Cor{Kind: "zero", F: f, I: i, Pos: r.Intn(1 << 12)})
 	case 3:
 		f, i := pickChunk()
-		c.Cors = append(c.Cors, Cor{Kind: "replace", F: f, I: i, Alt: r.Intn(64)})
+		if c.Comp == "gzip" && c.MinChunk == 0 {
+			c.Cors = append(c.Cors, Cor{Kind: "replace", F: f, I: i, Alt: r.Intn(64)})
+		} else {
+			c.Cors = append(c.Cors, Cor{Kind: "flip", F: f, I: i, Pos: r.Intn(1 << 16)})
+		}
 	case 4:
 		f, i := pickChunk()
 		f2, i2 := pickChunk()
@@ -1231,7 +1493,7 @@ func gen(r *hx.Rng) Case {
 		return Op{Op: "read", F: f, Off: sz, Len: 3} // at / past EOF
 	}
 	for i := 0; i < nops; i++ {
-		switch r.Pick(3, 1, 3, 1, 4, 2, 8, 2) {
+		switch r.Pick(3, 1, 3, 1, 4, 2, 8, 2, 3, 2) {
 		case 0:
 			c.Ops = append(c.Ops, Op{Op: "vtoc", D: dsel()})
 		case 1:
@@ -1250,6 +1512,11 @@ func gen(r *hx.Rng) Case {
 		case 7:
 			f, k := pickChunk()
 			c.Ops = append(c.Ops, Op{Op: "probe", F: f, I: k})
+		case 8:
+			f, k := pickChunk()
+			c.Ops = append(c.Ops, Op{Op: "pfstart", F: f, I: k, D: []string{"add", "commit"}[r.Intn(2)]})
+		case 9:
+			c.Ops = append(c.Ops, Op{Op: "pfresume", I: r.Intn(2)})
 		}
 	}
 	// after whatever failed: re-read everything through the warm cache, then look at the cache
@@ -1293,6 +1560,15 @@ func corpus() []Case {
 		// rewritten TOC matching a replaced chunk
 		{Comp: "gzip", ChunkSize: 8, Files: []FileSpec{{"a", txt(20)}}, Cors: []Cor{{Kind: "replace", F: 0, I: 1, Alt: 1}, {Kind: "tocdigest", F: 0, I: 1, Alt: 1}},
 			Ops: []Op{{Op: "vtoc", D: "orig"}, {Op: "vtoc", D: "actual"}, whole(20)}},
+		// handshake, order 1: the prefetch of a replaced chunk passes its verification step (records the failure), VerifyTOC runs
+		// while the commit is outstanding -> must fail; order 2: stopped before the verification step, VerifyTOC succeeds,
+		// the resumed prefetch must abort and cache nothing
+		{Comp: "gzip", ChunkSize: 8, Files: []FileSpec{{"a", txt(20)}}, Cors: []Cor{{Kind: "replace", F: 0, I: 1, Alt: 1}},
+			Ops: []Op{{Op: "pfstart", F: 0, I: 1, D: "commit"}, {Op: "vtoc", D: "orig"}, {Op: "pfresume"}, {Op: "probe", F: 0, I: 1}, {Op: "vtoc", D: "orig"}}},
+		{Comp: "gzip", ChunkSize: 8, Files: []FileSpec{{"a", txt(20)}}, Cors: []Cor{{Kind: "replace", F: 0, I: 1, Alt: 1}},
+			Ops: []Op{{Op: "pfstart", F: 0, I: 1, D: "add"}, {Op: "vtoc", D: "orig"}, {Op: "pfresume"}, {Op: "probe", F: 0, I: 1}, whole(20)}},
+		{Comp: "gzip", ChunkSize: 8, Files: []FileSpec{{"a", txt(20)}},
+			Ops: []Op{{Op: "pfstart", F: 0, I: 0, D: "commit"}, {Op: "pfstart", F: 0, I: 1, D: "add"}, {Op: "vtoc", D: "orig"}, whole(20), {Op: "pfresume", I: 1}, {Op: "pfresume"}, whole(20)}},
 		// min-chunk-size: several chunks in one member (pre-read callbacks), zstd
 		{Comp: "gzip", ChunkSize: 8, MinChunk: 40, Files: []FileSpec{{"a", txt(20)}, {"b", txt(10)}}, Ops: []Op{{Op: "vtoc", D: "orig"}, {Op: "read", F: 1, Off: 0, Len: 10}, whole(20), {Op: "cache"}}},
 		{Comp: "zstd", ChunkSize: 8, Files: []FileSpec{{"a", txt(20)}}, Cors: []Cor{{Kind: "flip", F: 0, I: 1, Pos: 77}}, Ops: []Op{{Op: "cache"}, {Op: "vtoc", D: "orig"}, whole(20)}},
@@ -1303,6 +1579,13 @@ func main() {
 	runtime.GOMAXPROCS(1) // Cache() then handles one chunk at a time: the recorder sees whole fetches
 	ctx := hx.Start()
 	emit := func(c Case) {
+		defer func() {
+			if r := recover(); r != nil {
+				b, _ := json.Marshal(c)
+				fmt.Fprintf(os.Stderr, "harness panic on case %s\n", b)
+				panic(r)
+			}
+		}()
 		res := run(c)
 		for k, v := range res.stats {
 			ctx.CountN(k, v)
